@@ -432,7 +432,15 @@ func runStress(e *lib.Env, r *common.Rng, max int, rs []rec, rounds, nthreads in
 	for round := 0; round < rounds; round++ {
 		ps := []prog{}
 		for i := 0; i < nthreads; i++ {
-			ps = append(ps, genProg(r, len(rs), false))
+			p := genProg(r, len(rs), false)
+			// no ShiftMatching in a free run: the engine can deadlock when a Shift (index-beacon lock,
+			// then treasure guards) runs beside any save (guard, then index-beacon lock) - a liveness
+			// defect outside C12 (reported to the coordinator); Shift only lowers the count anyway and
+			// is covered by the forced schedules
+			for p.Kind == "SH" {
+				p = genProg(r, len(rs), false)
+			}
+			ps = append(ps, p)
 		}
 		o.Progs = append(o.Progs, ps...)
 		var wg sync.WaitGroup
@@ -443,7 +451,15 @@ func runStress(e *lib.Env, r *common.Rng, max int, rs []rec, rounds, nthreads in
 			go func() { defer wg.Done(); <-start; runProg(e, sw, max, p) }()
 		}
 		close(start)
-		wg.Wait()
+		fin := make(chan struct{})
+		go func() { wg.Wait(); close(fin) }()
+		select {
+		case <-fin:
+		case <-time.After(10 * time.Second):
+			o.Notes = append(o.Notes, "hang: free-running RPCs did not finish within 10 s")
+			o.Final = []rec{}
+			return o
+		}
 		o.Counts = append(o.Counts, countM(dump(e, sw)))
 		// refill due pending records so that later rounds have something to claim
 		for k := 1; k <= len(rs); k++ {
